@@ -191,3 +191,5 @@ PROPS['C05']['units'] = PROPS['C05']['units'] + [cli.CountN, cli.AllPelsN, cli.L
 # main --json over a directory of any size: which files are converted, where to, and --clean passed through
 PROPS['C11']['units'] = PROPS['C11']['units'] + [cli.MainJsonN]
 PROPS['C12']['units'] = PROPS['C12']['units'] + [cli.MainJsonN]
+# C08: each --list entry's fields equal the corresponding fields of the full decode (real body of parsePELSummary)
+PROPS['C08']['units'] = PROPS['C08']['units'] + list(pelcore.C08_UNITS)
